@@ -6,7 +6,8 @@ patch="$1"; shift
 cd /verif
 if ! git -C /repo diff --quiet; then echo "/repo is not clean"; exit 3; fi
 git -C /repo apply "$patch" || { echo "patch does not apply"; exit 3; }
-trap 'git -C /repo checkout -- . ; git -C /repo clean -fdq lang app 2>/dev/null' EXIT
+# evidence written while the change is applied describes the changed tree: restore the committed files
+trap 'git -C /repo checkout -- . ; git -C /repo clean -fdq lang app 2>/dev/null; git -C /verif checkout -- evidence 2>/dev/null' EXIT
 for p in "$@"; do
   out=$(VERIF_BUDGET_S=${SEED_BUDGET_S:-40} ./check "$p" quick 2>&1)
   code=$?
